@@ -92,6 +92,14 @@ impl InnerLiterals {
         InnerLiterals { seq }
     }
 
+    /// Verification hook: the extracted literals, if the set is finite.
+    #[cfg(feature = "verif-hooks")]
+    pub(crate) fn verif_literals(&self) -> Option<Vec<Vec<u8>>> {
+        self.seq
+            .literals()
+            .map(|lits| lits.iter().map(|l| l.as_bytes().to_vec()).collect())
+    }
+
     /// Returns a infinite set of inner literals, such that it can never
     /// produce a matcher.
     pub(crate) fn none() -> InnerLiterals {
